@@ -56,14 +56,50 @@ func (m *Mutex) Unlock() {
 	m.real.Unlock()
 }
 
-// RWMutex is modelled as an exclusive lock under the scheduler (a sound over-approximation of blocking only for
-// writers; no repository package in the overlay set uses RWMutex today).
+// RWMutex: pass-through mode uses a real sync.RWMutex (readers really run concurrently, which the free-running -race
+// pass relies on). Under the scheduler a reader is enabled while no writer holds the lock, a writer while nobody does.
 type RWMutex struct {
-	Mutex
+	real sync.RWMutex
+	w    Mutex // writer side under the scheduler (held/owner/sch bookkeeping)
+	// scheduler-mode reader bookkeeping, guarded by Sched.mu
+	readers int
+	rsch    atomic.Pointer[Sched]
 }
 
-func (m *RWMutex) RLock()   { m.Lock() }
-func (m *RWMutex) RUnlock() { m.Unlock() }
+func (m *RWMutex) Lock() {
+	if s := active.Load(); s != nil {
+		s.acquireW(m)
+		return
+	}
+	m.real.Lock()
+}
+func (m *RWMutex) Unlock() {
+	if s := m.w.sch.Load(); s != nil {
+		s.release(&m.w)
+		return
+	}
+	m.real.Unlock()
+}
+func (m *RWMutex) RLock() {
+	if s := active.Load(); s != nil {
+		s.acquireR(m)
+		return
+	}
+	m.real.RLock()
+}
+func (m *RWMutex) RUnlock() {
+	if s := m.rsch.Load(); s != nil {
+		s.releaseR(m)
+		return
+	}
+	m.real.RUnlock()
+}
+func (m *RWMutex) RLocker() Locker { return (*rlocker)(m) }
+
+type rlocker RWMutex
+
+func (r *rlocker) Lock()   { (*RWMutex)(r).RLock() }
+func (r *rlocker) Unlock() { (*RWMutex)(r).RUnlock() }
 
 type WaitGroup struct {
 	real sync.WaitGroup
